@@ -3,8 +3,12 @@ package main
 import (
 	"flag"
 	"fmt"
+	"go/ast"
+	"go/parser"
+	"go/token"
 	"os"
 	"path/filepath"
+	"sort"
 	"strconv"
 	"strings"
 
@@ -67,20 +71,142 @@ func harnessOverlay(extra map[string][]byte) (map[string][]byte, map[string]stri
 	return ov, paths
 }
 
+// harnessRewrites: harness files from which declarations were removed because they do not compile against the tree
+// under check (virtual path -> rewritten source); droppedDecls: name of each removed declaration -> the compiler's message
+var harnessRewrites = map[string][]byte{}
+var droppedDecls = map[string]string{}
+
+// loadProgram type-checks /repo with the harness overlay. A change to /repo may alter an internal signature that some
+// harness uses; instead of failing every check, the declarations that no longer compile (and, in further rounds, the
+// declarations that depended on them) are removed from the overlay. Tasks whose harness is gone end INCONCLUSIVE with
+// the compiler's message; everything else runs normally.
 func loadProgram(extra map[string][]byte) (*ssa.Program, *ssa.Package, error) {
 	ov, _ := harnessOverlay(extra)
-	cfg := &packages.Config{Mode: packages.LoadAllSyntax, Dir: repoDir, Overlay: ov,
-		Env: append(os.Environ(), "GOFLAGS=-mod=mod", "GOPROXY=off", "GOSUMDB=off", "GOTOOLCHAIN=local")}
-	pkgs, err := packages.Load(cfg, ".")
+	for round := 0; round < 12; round++ {
+		cfg := &packages.Config{Mode: packages.LoadAllSyntax, Dir: repoDir, Overlay: ov,
+			Env: append(os.Environ(), "GOFLAGS=-mod=mod", "GOPROXY=off", "GOSUMDB=off", "GOTOOLCHAIN=local")}
+		pkgs, err := packages.Load(cfg, ".")
+		if err != nil {
+			return nil, nil, err
+		}
+		var errs []packages.Error
+		packages.Visit(pkgs, nil, func(p *packages.Package) { errs = append(errs, p.Errors...) })
+		if len(errs) == 0 {
+			prog, sp := ssautil.AllPackages(pkgs, ssa.InstantiateGenerics)
+			prog.Build()
+			return prog, sp[0], nil
+		}
+		changed := false
+		byFile := map[string][]packages.Error{}
+		for _, e := range errs {
+			file, _ := splitPos(e.Pos)
+			if _, ok := ov[file]; !ok || !strings.Contains(filepath.Base(file), "zz_verif_") {
+				packages.PrintErrors(pkgs)
+				return nil, nil, fmt.Errorf("package errors outside the harness overlay (%s: %s)", e.Pos, e.Msg)
+			}
+			byFile[file] = append(byFile[file], e)
+		}
+		for file, es := range byFile {
+			src, n := removeDecls(file, ov[file], es)
+			if n > 0 {
+				ov[file] = src
+				harnessRewrites[file] = src
+				changed = true
+			}
+		}
+		if !changed {
+			packages.PrintErrors(pkgs)
+			return nil, nil, fmt.Errorf("package errors in the harness overlay that could not be isolated")
+		}
+	}
+	return nil, nil, fmt.Errorf("harness overlay still does not compile after 12 rounds of isolation")
+}
+
+func splitPos(pos string) (string, int) {
+	// file:line:col
+	parts := strings.Split(pos, ":")
+	if len(parts) < 2 {
+		return pos, 0
+	}
+	line, _ := strconv.Atoi(parts[1])
+	return parts[0], line
+}
+
+// removeDecls cuts the top-level declarations that contain the error positions out of a harness file; unused imports
+// reported by the compiler are blanked (import _ "x")
+func removeDecls(file string, src []byte, es []packages.Error) ([]byte, int) {
+	fset := token.NewFileSet()
+	f, err := parser.ParseFile(fset, file, src, parser.ParseComments)
 	if err != nil {
-		return nil, nil, err
+		return src, 0
 	}
-	if packages.PrintErrors(pkgs) > 0 {
-		return nil, nil, fmt.Errorf("package errors")
+	type cut struct{ from, to int }
+	var cuts []cut
+	n := 0
+	for _, e := range es {
+		_, line := splitPos(e.Pos)
+		for _, d := range f.Decls {
+			from, to := fset.Position(d.Pos()), fset.Position(d.End())
+			if line < from.Line || line > to.Line {
+				continue
+			}
+			if gd, ok := d.(*ast.GenDecl); ok && gd.Tok == token.IMPORT {
+				// unused import: blank the offending spec
+				for _, sp := range gd.Specs {
+					is := sp.(*ast.ImportSpec)
+					if fset.Position(is.Pos()).Line == line && is.Name == nil {
+						cuts = append(cuts, cut{fset.Position(is.Path.Pos()).Offset, fset.Position(is.Path.Pos()).Offset})
+						n++
+					}
+				}
+				continue
+			}
+			name := "?"
+			switch x := d.(type) {
+			case *ast.FuncDecl:
+				name = x.Name.Name
+			case *ast.GenDecl:
+				if len(x.Specs) > 0 {
+					switch sp := x.Specs[0].(type) {
+					case *ast.ValueSpec:
+						name = sp.Names[0].Name
+					case *ast.TypeSpec:
+						name = sp.Name.Name
+					}
+				}
+			}
+			if _, done := droppedDecls[name]; !done {
+				droppedDecls[name] = e.Msg
+			}
+			cuts = append(cuts, cut{from.Offset, to.Offset})
+			n++
+		}
 	}
-	prog, sp := ssautil.AllPackages(pkgs, ssa.InstantiateGenerics)
-	prog.Build()
-	return prog, sp[0], nil
+	if n == 0 {
+		return src, 0
+	}
+	sort.Slice(cuts, func(i, j int) bool { return cuts[i].from > cuts[j].from })
+	out := append([]byte{}, src...)
+	last := len(out) + 1
+	for _, c := range cuts {
+		if c.from >= last {
+			continue // overlapping / duplicate
+		}
+		if c.from == c.to {
+			out = append(out[:c.from], append([]byte("_ "), out[c.from:]...)...)
+		} else {
+			// keep the line structure so that later error positions stay meaningful
+			repl := []byte{}
+			for _, b := range out[c.from:c.to] {
+				if b == '\n' {
+					repl = append(repl, '\n')
+				}
+			}
+			out = append(out[:c.from], append(repl, out[c.to:]...)...)
+		}
+		last = c.from
+	}
+	return out, n
 }
 
 func defaultConfig() Config {
